@@ -139,6 +139,8 @@ def _calls_outside_err(t, allowed, out=None, depth=0):
         return out
     if t[0] == 'agg' and isinstance(t[1], dict) and t[1].get('variant') in ('Err', 'None', 'Break'):
         return out
+    if is_call(t, name='from_residual'):
+        return out   # an error handed on with `?` inside a spliced helper: the Err alternative of the merged result
     if is_call(t) and t[3] not in allowed:
         out.append(t)
     for x in t[1:]:
